@@ -80,10 +80,18 @@ def run(ctx):
         huge.append(('{\n  "k": "abcd" // {minLength: %d}\n}' % V, "minLength"))
         huge.append(('[ // {minItems: %d}\n  1, 2\n]' % V, "minItems"))
         huge.append(('{\n  "k": [ // {minItems: %d}\n    "x"\n  ]\n}' % V, "minItems"))
+    # small item counts against every smaller maxItems / larger minItems (incl. one item under maxItems: 0), top level and nested
+    for n in (1, 2, 3):
+        items = ", ".join(str(i + 1) for i in range(n))
+        for k in range(0, n):
+            huge.append(('[ // {maxItems: %d}\n  %s\n]' % (k, items), "maxItems"))
+            huge.append(('{\n  "a": [ // {maxItems: %d}\n    %s\n  ]\n}' % (k, items), "maxItems"))
+        for k in (n + 1, n + 2):
+            huge.append(('[ // {minItems: %d}\n  %s\n]' % (k, items), "minItems"))
     for (t, rule), o in zip(huge, vc.impl(["schema"], [json.dumps({"schema": t, "ops": [["check"]]}) for t, _ in huge])):
         ctx.evaluations += 1
         if json.loads(o)[0] == "ok" and len(ctx.violations) < 40:
-            ctx.report("Check accepts a schema whose example violates its own rule %s (a parameter beyond 2^64 is read modulo 2^64): %r" % (rule, t[:200]), "c04c:" + t, {"schema": t, "violated_rule": rule}, case=t)
+            ctx.report("Check accepts a schema whose example violates its own rule %s (a parameter beyond 2^64 read modulo 2^64, or a small item count against a smaller maxItems / larger minItems): %r" % (rule, t[:200]), "c04c:" + t, {"schema": t, "violated_rule": rule}, case=t)
     # an or rule-set describing an array cannot have items: an item count it cannot meet must be refused, not accepted with an example matching no alternative
     rs = ['[] // {or: [{type: "array", minItems: 1}, {type: "string"}]}', '[] // {or: [{type: "string"}, {type: "array", minItems: 2, maxItems: 3}]}',
           '{\n  "k": [] // {or: [{type: "array", minItems: 1}, {type: "null"}]}\n}']
